@@ -5,9 +5,9 @@ it is analysed through a shim crate root (rules/lib/x_rlmfacts.py) that compiles
 cfg(test) and without the feature. If the shim cannot be built, or Module::authorise has no body, the check fails closed.
 
 Decided (DESIGN.md C46), on type-checked HIR, nothing executes:
- K3-secret       every construction of AuthResponse / ResponseControlAttributes and every read of RadiusAuthToken.secret in the
-                 crate is inside Module::authorise, under the *true* outcome of self.user_in_required_groups(<that token>.groups)
-                 (derived Clone impls excepted);
+ K3-secret       every construction of AuthResponse / ResponseControlAttributes (the only values that carry the secret out of
+                 authorise; AuthError has no payload) in the crate is inside Module::authorise, under the *true* outcome of
+                 self.user_in_required_groups(<token>.groups), the secret being taken from that same token (derived Clone impls excepted);
  K4-predicate    user_in_required_groups is  <param>.iter().any(|g| F)  where every way to make F true contains
                  self.required_groups.contains(&g.uuid) or self.required_groups.contains(&g.spn)  (`all`, a negation, or a
                  disjunct without a membership test is a violation);
@@ -20,13 +20,13 @@ RadiusAuthToken lists the user's real groups, BTreeSet/BTreeMap semantics.
 """
 from .lib.hir import *
 from .lib import pathcond as pc
-from .lib.x_sinks import (real_root, result_leaves, sites_of, pat_forces, entailed, prov_binds, deep_tokens, local_id,
+from .lib.x_sinks import (real_root, result_leaves, sites_of, pat_forces, entailed, prov_binds, deep_tokens, local_id, cond_subst,
                           pat_bound_locals, param_locals, leaf_pat, leaf_scrut, loc)
 
 META = dict(
     technique="static path-condition analysis (K3) of every site that builds the secret-carrying response, plus template extraction (K4) of the group predicate and the VLAN fold, "
               "over HIR of the unmodified logic.rs compiled through a shim crate root",
-    level_text="All constructions of the response that carries the RADIUS secret, and all reads of the token's secret, are enumerated from the compiler's HIR and shown to be "
+    level_text="All constructions of the response types that carry the RADIUS secret are enumerated from the compiler's HIR and shown to be "
                "dominated by user_in_required_groups(token.groups) == true; that predicate is extracted and must be any(uuid ∈ required ∨ spn ∈ required); the VLAN computation is "
                "extracted as a fold (default, overwritten only from a matched group mapping, in list order, no early exit). This covers every configuration and group list; the "
                "existing tests check one VLAN ordering and need a live server for the flow.",
@@ -55,9 +55,35 @@ def base_local(e):
     return local_id(e)
 
 
+def token_locals(e, prov, field):
+    """Locals holding the RadiusAuthToken that `e` takes `field` from: base of `<t>.<field>` reads (through simple
+    lets / destructuring, bounded)."""
+    out = set()
+    seen = set()
+    frontier = [e]
+    for _ in range(4):
+        nxt = []
+        for x in frontier:
+            for n in walk(x):
+                if n.get("e") == "field" and n.get("f") == field and "RadiusAuthToken" in n.get("xty", ""):
+                    b = base_local(n["x"])
+                    if b is not None:
+                        out.add(b)
+                if n.get("e") == "path" and "local" in n.get("res", {}):
+                    l = n["res"]["local"]
+                    if l in prov and l not in seen:
+                        seen.add(l)
+                        init = unwrap(prov[l])
+                        if local_id(init) is not None:
+                            out.add(local_id(init))        # alias / destructuring of a local
+                        nxt.append(prov[l])
+        frontier = nxt
+    return out
+
+
 def run(ctx):
     from .lib import x_rlmfacts
-    ctx.explanation = ("K3: every construction of AuthResponse/ResponseControlAttributes and every read of token.secret lies in Module::authorise under "
+    ctx.explanation = ("K3: every construction of AuthResponse/ResponseControlAttributes lies in Module::authorise under "
                        "user_in_required_groups(token.groups)==true. K4: the predicate is any(uuid ∈ required ∨ spn ∈ required); the VLAN starts at the default and is "
                        "overwritten only from a matched group mapping in list order. logic.rs is analysed through a shim root (cfg-gated in the crate root).")
     F = ctx.facts
@@ -82,6 +108,7 @@ def run(ctx):
         ctx.analysed_fns.add(name)
         return d
 
+    ctx.exhaustive = True      # every success / secret-carrying site of the crates is enumerated, not sampled
     auth = fn(M + "authorise")
     pred = fn(M + "user_in_required_groups")
     rgc = fn(M + "resolve_group_configs")
@@ -99,8 +126,6 @@ def run(ctx):
             d = def_of(n)
             if n.get("e") == "struct" and d in ("rlm_kanidm::logic::AuthResponse", "rlm_kanidm::logic::ResponseControlAttributes"):
                 sinks.append(n)
-            elif n.get("e") == "field" and n.get("f") == "secret" and "RadiusAuthToken" in n.get("xty", ""):
-                sinks.append(n)
         if not sinks:
             continue
         if name != auth["fn"]:
@@ -113,11 +138,12 @@ def run(ctx):
                           **loc(rec, n))
             continue
         binds = pc.collect_binds(root)
+        prov = prov_binds(root)
         for node, conds in sites_of(root, sinks):
             n_sinks += 1
             n_in_auth += 1
             lits = entailed(conds, binds)
-            what = short(def_of(node), 1) if node.get("e") == "struct" else "read:token.secret"
+            what = short(def_of(node), 1)
             guards = []
             for (p, leaf) in lits.values():
                 if p and leaf[1] == "expr":
@@ -126,19 +152,23 @@ def run(ctx):
                         guards.append(e)
             ok = bool(guards)
             detail = ""
-            if ok and node.get("e") == "field":
+            pw = [f["x"] for f in node["fields"] if f["f"] == "cleartext_password"] if def_of(node).endswith("ResponseControlAttributes") else []
+            if ok and pw and def_of(unwrap(pw[0])) != "core::option::Option::None":
                 # the groups tested belong to the token whose secret is released
-                tl = base_local(node["x"])
-                ok = any(a for g in guards for a in g.get("args", [])
-                         if has_token(tokens(a), "field", "groups") and base_local(a) == tl and tl is not None)
-                detail = " (for the same token)"
+                st = token_locals(pw[0], prov, "secret")
+                gt = set()
+                for g in guards:
+                    for a in g.get("args", []):
+                        gt |= token_locals(a, prov, "groups")
+                ok = bool(st) and bool(st & gt)
+                detail = " (groups and secret of the same token)"
             ctx.check(ok, "K3-secret", auth["fn"], "secret-site:" + what,
                       "under user_in_required_groups(token.groups) == true" + detail,
                       f"{what} in Module::authorise is reachable without the true outcome of self.user_in_required_groups(<that token>.groups) "
                       f"(guards {[g for g in pc.render(lits) if 'CALLSITE' not in g][:6]}): the RADIUS secret would be released to a user outside every required group",
                       **loc(auth, node))
             ctx.sample(f"{auth['file']}:{node.get('line')} authorise :: {what} under user_in_required_groups(token.groups)")
-    ctx.floor("K3-secret", "secret-carrying sites in Module::authorise", n_in_auth, 3)
+    ctx.floor("K3-secret", "secret-carrying sites in Module::authorise", n_in_auth, 2)
 
     # ---- K4-predicate ----------------------------------------------------------------
     root = real_root(pred)
@@ -159,11 +189,12 @@ def run(ctx):
         gl = set()
         for p in clo.get("params", []):
             gl |= set(pat_bound_locals(p))
-        body = clo["body"]
-        f = pc.cond(body if unwrap(body).get("e") != "blockexpr" else unwrap(body))
-        b = unwrap(body)
-        if b.get("e") == "blockexpr" and not b["b"]["stmts"] and "tail" in b["b"]:
-            f = pc.cond(b["b"]["tail"])
+        body = unwrap(clo["body"])
+        cbinds = pc.collect_binds(body)
+        tail = body
+        while isinstance(tail, dict) and tail.get("e") == "blockexpr" and "tail" in tail["b"]:
+            tail = unwrap(tail["b"]["tail"])
+        f = cond_subst(tail, cbinds)
 
         def member_atom(leaf):
             if leaf[1] != "expr":
@@ -247,7 +278,7 @@ def run(ctx):
             in_loop = None
             for lp in loops:
                 it = unwrap(lp["scrut"])["args"][0]
-                direct = local_id(it) in group_params
+                direct = base_local(it) in group_params
                 for (p, leaf) in lits.values():
                     if p and leaf[1] == "arm" and item is not None and item in pat_bound_locals(leaf_pat(leaf)) and \
                             any(n is node for n in walk(lp)):
@@ -278,10 +309,12 @@ def run(ctx):
     prov = prov_binds(root)
     replies = [n for n in walk(root) if n.get("e") == "struct" and def_of(n) == "rlm_kanidm::logic::ResponseReplyAttributes"]
     ctx.floor("K4-vlan-use", "constructions of ResponseReplyAttributes in authorise", len(replies), 1)
+    rcalls = [c for c in all_calls(root) if callee_of(c) == rgc["fn"]]
     for n in replies:
         fx = [f["x"] for f in n["fields"] if f["f"] == "tunnel_private_group_id"]
         toks = deep_tokens(fx[0], prov, 4) if fx else set()
-        ctx.check(has_token(toks, "call", rgc["fn"]) and has_token(toks, "field", "groups"), "K4-vlan-use", auth["fn"],
+        from_token = any(token_locals(a, prov, "groups") for c in rcalls for a in c.get("args", []))
+        ctx.check(has_token(toks, "call", rgc["fn"]) and from_token, "K4-vlan-use", auth["fn"],
                   "tunnel_private_group_id<-resolve_group_configs",
                   "VLAN reply attribute derives from resolve_group_configs(token.groups)",
-                  f"tunnel_private_group_id (`{ex_s(fx[0])[:40] if fx else '?'}`) does not derive from self.resolve_group_configs(token.groups)", **loc(auth, n))
+                  f"tunnel_private_group_id (`{ex_s(fx[0])[:40] if fx else '?'}`) does not derive from self.resolve_group_configs(<token>.groups)", **loc(auth, n))
